@@ -75,12 +75,14 @@ def _parse_only_parser_error(r, toks):
     return True         # any other exception propagates and is reported by CrossHair as a counterexample
 
 
-def lemma_parser_total_len2(r: int, a: int, b: int) -> bool:
+def lemma_parser_total_len2(ra: int, a: int, b: int) -> bool:
     """
-    pre: 0 <= r < NR and 0 <= a < NU and 0 <= b < NU
+    pre: 0 <= ra < NR * 3 and 0 <= a < NU and 0 <= b < NU
+    pre: a % 3 == ra % 3
     post: __return__
     """
-    return _parse_only_parser_error(r, [UNIVERSE[a], UNIVERSE[b]])
+    # partitioned by rule entry point (ra // 3) and the residue of the first token selector (ra % 3)
+    return _parse_only_parser_error(ra // 3, [UNIVERSE[a], UNIVERSE[b]])
 
 
 def lemma_parser_total_len1(r: int, a: int) -> bool:
@@ -100,7 +102,7 @@ def twin_parser_total_split(r: int, a: int) -> bool:
     return _parse_only_parser_error(r, [UNIVERSE[a]]) and a != 1
 
 
-SPLITS = {'twin_parser_total_split': ('r', 2), 'lemma_parser_total_len2': ('r', 6)}
+SPLITS = {'twin_parser_total_split': ('r', 2), 'lemma_parser_total_len2': ('ra', 18)}
 THOROUGH_ONLY = []
 
 for _c in (BC.YOU, BC.TRY | BC.LOOP, BC.DEFEAT, BC.NONE, BC.FUNC):
